@@ -631,6 +631,47 @@ def run(loader, R, tier):
     R.floor("positive control (verif_positive::stack_lines_reversed) "
             "recognised", ncontrol11, 1)
 
+    # --------------------------------------------------------------- R44.14
+    # nested expressions are printed by the printer itself: streaming a
+    # child with operator<<(ostream&, const Basic&) uses the plain string
+    # printer, whatever the surrounding format is
+    R.rule("R44.14", "no alternative printer streams a child expression "
+                     "with the default string printer")
+    n14 = 0
+    for u, f in sorted(prog.functions.items(), key=lambda kv: kv[1]["qn"]):
+        cls = f.get("cls") or ""
+        if not f.get("body") or f.get("dependent") \
+                or cls not in ALL_PRINTERS or cls == "SymEngine::StrPrinter":
+            continue
+        for x in walk(f["body"]):
+            if not (x.get("k") == "op" and x.get("op") == "<<"
+                    and x.get("u") and len(x.get("a", ())) == 2):
+                continue
+            h = prog.header(x["u"]) or {}
+            ps = h.get("params") or []
+            if not (len(ps) == 2 and "SymEngine::Basic" in ps[1].get("t", "")
+                    and "RCP" not in ps[1].get("t", "")):
+                continue
+            rhs = x["a"][1]
+            child = any(y.get("k") == "mcall" and (y.get("n") or ""
+                                                  ).startswith("get_")
+                        for y in walk(rhs))
+            n14 += 1
+            key = "%s(%s)@%s" % (short(f["qn"]), short(
+                f["params"][0]["t"]) if f.get("params") else "", x.get("l"))
+            R.instance("R44.14", key, sample={"streamed": show(rhs)[:40],
+                                              "is_child": child})
+            if child:
+                R.violation(
+                    "R44.14", "%s(%s)" % (short(f["qn"]), short(
+                        f["params"][0]["t"]) if f.get("params") else ""),
+                    prog.loc(f, x.get("l")),
+                    "%s streams the child `%s` with operator<<(ostream&, "
+                    "const Basic&), the plain string printer: the operand "
+                    "comes out in SymEngine's own syntax inside %s output"
+                    % (short(f["qn"]), show(rhs)[:40], short(cls)))
+    R.info["basic_stream_insertions_in_alternative_printers"] = n14
+
     # --------------------------------------------------------------- R44.13
     # sibling agreement on a value-dependent class: Infty is one class for
     # +oo, -oo and zoo; every printer's handler for it consults the
